@@ -1,5 +1,5 @@
 (* C09 part (b): operations after the end of the context are bounded by the longest check-free stretch, and that
-   stretch is bounded for every tree. *)
+   stretch is bounded for every tree (walk family, listing, removal, cleaning, copy, move). *)
 From Coq Require Import List ZArith Bool Lia PeanoNat.
 Import ListNotations.
 From GU Require Import C09.Model.
@@ -14,12 +14,6 @@ Qed.
 
 Lemma gap_ge_cur : forall tr cur, (cur <= max_gap_aux cur tr)%nat.
 Proof. intros. pose proof (head_run_le_gap tr cur). lia. Qed.
-
-Lemma gap_mono : forall tr c1 c2, (c1 <= c2 -> max_gap_aux c1 tr <= max_gap_aux c2 tr)%nat.
-Proof.
-  induction tr as [|e t IH]; intros c1 c2 H; simpl; [lia|].
-  destruct e; [lia|]. apply IH. lia.
-Qed.
 
 Lemma after_kth_le_gap : forall tr k cur, (head_run (after_kth k tr) <= max_gap_aux cur tr)%nat.
 Proof.
@@ -63,118 +57,249 @@ Proof.
 Qed.
 
 Arguments opsn : simpl never.
-Arguments c_ls : simpl never.
 
-(* a segment that keeps every stretch below B when entered with at most B pending operations *)
-Definition keeps (B : nat) (X : list bev) : Prop :=
-  forall cur, (cur <= B -> max_gap_aux cur X <= B /\ tail_run_aux cur X <= B)%nat.
+(* [K e B T X]: entered with at most e pending operations, the segment X keeps every stretch within B and leaves at
+   most T pending operations *)
+Definition K (e B T : nat) (X : list bev) : Prop :=
+  forall cur, (cur <= e -> max_gap_aux cur X <= B /\ tail_run_aux cur X <= T)%nat.
 
-Lemma keeps_nil B : keeps B [].
-Proof. intros cur H; simpl; lia. Qed.
+Lemma K_nil e B T : (e <= B -> e <= T -> K e B T [])%nat.
+Proof. intros H1 H2 cur H. simpl. lia. Qed.
 
-Lemma keeps_app B X Y : keeps B X -> keeps B Y -> keeps B (X ++ Y).
+Lemma K_op e B T X : K (S e) B T X -> K e B T (Op :: X).
+Proof. intros H cur Hc. simpl. apply H. lia. Qed.
+
+Lemma K_opsn n e B T X : K (e + n) B T X -> K e B T (opsn n ++ X).
+Proof. intros H cur Hc. rewrite gap_opsn, tail_opsn. apply H. lia. Qed.
+
+Lemma K_chk d e B T X : (e + d <= B)%nat -> K 0 B T X -> K e B T (ChkD d :: X).
+Proof.
+  intros Hd H cur Hc. destruct (H 0%nat (le_n _)) as [g t].
+  change (max_gap_aux cur (ChkD d :: X)) with (Nat.max (cur + d) (max_gap_aux 0 X)).
+  change (tail_run_aux cur (ChkD d :: X)) with (tail_run_aux 0 X). lia.
+Qed.
+
+Lemma K_app e B T1 T X Y : K e B T1 X -> K T1 B T Y -> K e B T (X ++ Y).
 Proof.
   intros HX HY cur H. destruct (HX cur H) as [gx tx]. destruct (HY _ tx) as [gy ty].
   split; [pose proof (gap_app X Y cur); lia | rewrite tail_app; exact ty].
 Qed.
 
-Lemma keeps_chk B X : keeps B X -> keeps B (Chk :: X).
-Proof. intros HX cur H. simpl. destruct (HX 0%nat ltac:(lia)). lia. Qed.
+Lemma K_weaken e B T e' B' T' X : (e' <= e /\ B <= B' /\ T <= T')%nat -> K e B T X -> K e' B' T' X.
+Proof. intros H HK cur Hc. destruct (HK cur ltac:(lia)). lia. Qed.
 
-Lemma keeps_flat_map {A} B (g : A -> list bev) (l : list A) :
-  Forall (fun c => keeps B (g c)) l -> keeps B (flat_map g l).
+(* a loop: every iteration may be entered with e pending operations and leaves at most T <= e *)
+Lemma K_loop {A} e B T (g : A -> list bev) (l : list A) :
+  (T <= e)%nat -> (e <= B)%nat -> Forall (fun c => K e B T (g c)) l -> K e B e (flat_map g l).
 Proof.
-  induction 1; simpl; [apply keeps_nil | apply keeps_app; assumption].
+  intros HT HB. induction 1 as [|c l Hc Hl IH]; simpl; [apply K_nil; lia|].
+  eapply K_app; [exact Hc|]. eapply K_weaken; [|exact IH]. lia.
 Qed.
 
-(* a check point followed by n <= B operations *)
-Lemma keeps_chk_ops B n X : (n <= B)%nat -> (forall cur, (cur <= B)%nat -> True) ->
-  (forall cur, (cur <= B -> max_gap_aux n X <= B /\ tail_run_aux n X <= B)%nat) -> keeps B (Chk :: opsn n ++ X).
+Lemma K_loop_ne {A} e B T (g : A -> list bev) (c0 : A) (l : list A) :
+  (T <= e)%nat -> (e <= B)%nat -> Forall (fun c => K e B T (g c)) (c0 :: l) -> K e B T (flat_map g (c0 :: l)).
 Proof.
-  intros Hn _ HX cur H. simpl. rewrite gap_opsn, tail_opsn. simpl. destruct (HX cur H). lia.
+  intros HT HB H. revert c0 H. induction l as [|c1 l IH]; intros c0 H; inversion H as [|? ? Hc Hl]; subst; simpl.
+  - rewrite app_nil_r. exact Hc.
+  - eapply K_app; [exact Hc|]. eapply K_weaken; [|apply (IH c1 Hl)]. lia.
 Qed.
+
+Lemma K_gap e B T X : K e B T X -> (max_gap X <= B)%nat.
+Proof. intros H. apply (H 0%nat). lia. Qed.
 
 (* ---- nested induction over trees ---- *)
-Fixpoint tree_ind' (P : tree -> Prop) (HF : P F) (HD : forall cs, Forall P cs -> P (D cs)) (t : tree) : P t :=
+Fixpoint tree_ind' (P : tree -> Prop) (HF : forall n, P (F n)) (HD : forall cs, Forall P cs -> P (D cs)) (t : tree) : P t :=
   match t with
-  | F => HF
+  | F n => HF n
   | D cs => HD cs ((fix go (l : list tree) : Forall P l :=
                       match l with [] => Forall_nil _ | c :: l' => Forall_cons c (tree_ind' P HF HD c) (go l') end) cs)
   end.
 
-(* ---- Walk ---- *)
-Lemma keeps_chk0 B X : (max_gap_aux 0 X <= B /\ tail_run_aux 0 X <= B)%nat -> keeps B (Chk :: X).
-Proof.
-  intros [g t] cur H.
-  change (max_gap_aux cur (Chk :: X)) with (Nat.max cur (max_gap_aux 0 X)).
-  change (tail_run_aux cur (Chk :: X)) with (tail_run_aux 0 X). lia.
-Qed.
+Ltac ksolve :=
+  repeat first
+    [ apply K_opsn | apply K_op
+    | apply K_chk; [cbn; unfold B_remove, B_copy, B_move; cbn; lia|]
+    | apply K_nil; cbn; unfold B_remove, B_copy, B_move; cbn; lia ].
 
-Lemma walk_tr_F cb : walk_tr cb F = Chk :: opsn cb ++ [].
+(* ---- Walk ---- *)
+Lemma walk_tr_F cb n : walk_tr cb (F n) = Chk :: opsn cb ++ [].
 Proof. reflexivity. Qed.
 Lemma walk_tr_D cb cs : walk_tr cb (D cs) = Chk :: opsn cb ++ opsn c_ls ++ flat_map (fun c => Chk :: Op :: walk_tr cb c) cs.
 Proof. reflexivity. Qed.
 
-Lemma walk_keeps : forall cb t, keeps (B_walk cb) (walk_tr cb t).
+Lemma walk_K : forall cb t, K (B_walk cb) (B_walk cb) (B_walk cb) (walk_tr cb t).
 Proof.
-  intros cb. induction t as [|cs IH] using tree_ind'.
-  - rewrite walk_tr_F. apply keeps_chk0. rewrite gap_opsn, tail_opsn.
-    change (max_gap_aux (0 + cb) []) with (0 + cb)%nat. change (tail_run_aux (0 + cb) []) with (0 + cb)%nat. unfold B_walk. lia.
-  - rewrite walk_tr_D. apply keeps_chk0. rewrite !gap_opsn, !tail_opsn.
-    assert (K : keeps (B_walk cb) (flat_map (fun c => Chk :: Op :: walk_tr cb c) cs)).
-    { apply keeps_flat_map. eapply Forall_impl; [|exact IH]. intros c Hc.
-      apply keeps_chk0.
-      change (max_gap_aux 0 (Op :: walk_tr cb c)) with (max_gap_aux 1 (walk_tr cb c)).
-      change (tail_run_aux 0 (Op :: walk_tr cb c)) with (tail_run_aux 1 (walk_tr cb c)).
-      apply Hc. unfold B_walk, c_ls. lia. }
-    apply K. unfold B_walk. lia.
+  intros cb. induction t as [n|cs IH] using tree_ind'.
+  - rewrite walk_tr_F. apply K_chk; [lia|]. apply K_opsn. apply K_nil; unfold B_walk; lia.
+  - rewrite walk_tr_D. apply K_chk; [lia|]. apply K_opsn. apply K_opsn.
+    eapply K_weaken; [|apply (K_loop (B_walk cb) (B_walk cb) (B_walk cb))]; [unfold B_walk, c_ls; lia|lia|lia|].
+    eapply Forall_impl; [|exact IH]. intros c Hc.
+    apply K_chk; [lia|]. apply K_op. eapply K_weaken; [|exact Hc]. unfold B_walk, c_ls. lia.
 Qed.
 
 Lemma walk_entry_gap : forall cb t, (max_gap (walk_entry cb t) <= B_walk cb)%nat.
 Proof.
-  intros. unfold max_gap, walk_entry.
-  change (max_gap_aux 0 (Op :: walk_tr cb t)) with (max_gap_aux 1 (walk_tr cb t)).
-  apply walk_keeps. unfold B_walk, c_ls. lia.
+  intros. unfold walk_entry. eapply (K_gap 0 _ (B_walk cb)). apply K_op. eapply K_weaken; [|apply walk_K]. unfold B_walk, c_ls. lia.
 Qed.
 
 Lemma chmod_entry_gap : forall t, (max_gap (chmod_entry t) <= B_walk 1)%nat.
 Proof.
-  intros. unfold max_gap, chmod_entry.
-  change (max_gap_aux 0 (Chk :: opsn (c_isdir t) ++ walk_entry 1 t)) with (Nat.max 0 (max_gap_aux 0 (opsn (c_isdir t) ++ walk_entry 1 t))).
-  rewrite gap_opsn. unfold walk_entry.
-  change (max_gap_aux (0 + c_isdir t) (Op :: walk_tr 1 t)) with (max_gap_aux (S (0 + c_isdir t)) (walk_tr 1 t)).
-  assert (H : (S (0 + c_isdir t) <= B_walk 1)%nat) by (unfold B_walk, c_ls, c_isdir, c_exists; destruct (is_dir t); lia).
-  destruct (walk_keeps 1 t _ H). lia.
+  intros. unfold chmod_entry, walk_entry. eapply (K_gap 0 _ (B_walk 1)). apply K_chk; [lia|]. apply K_opsn. apply K_op.
+  eapply K_weaken; [|apply walk_K]. unfold B_walk, c_ls, c_isdir, c_exists. destruct (is_dir t); lia.
 Qed.
 
 (* ---- ListDirTree ---- *)
 Lemma listtree_tr_D cs : listtree_tr (D cs) = Chk :: opsn c_ls ++ flat_map (fun c => Chk :: opsn (c_isdir c) ++ listtree_tr c) cs.
 Proof. reflexivity. Qed.
 
-Lemma listtree_keeps : forall t, keeps B_listtree (listtree_tr t).
+Lemma listtree_K : forall t, K B_listtree B_listtree B_listtree (listtree_tr t).
 Proof.
-  induction t as [|cs IH] using tree_ind'.
-  - apply keeps_nil.
-  - rewrite listtree_tr_D. apply keeps_chk0. rewrite gap_opsn, tail_opsn.
-    assert (K : keeps B_listtree (flat_map (fun c => Chk :: opsn (c_isdir c) ++ listtree_tr c) cs)).
-    { apply keeps_flat_map. eapply Forall_impl; [|exact IH]. intros c Hc.
-      apply keeps_chk0. rewrite gap_opsn, tail_opsn.
-      apply Hc. unfold B_listtree, c_ls, c_isdir, c_exists. destruct (is_dir c); lia. }
-    apply K. unfold B_listtree. lia.
+  induction t as [n|cs IH] using tree_ind'.
+  - apply K_nil; lia.
+  - rewrite listtree_tr_D. apply K_chk; [lia|]. apply K_opsn.
+    eapply K_weaken; [|apply (K_loop B_listtree B_listtree B_listtree)]; [unfold B_listtree, c_ls; lia|lia|lia|].
+    eapply Forall_impl; [|exact IH]. intros c Hc.
+    apply K_chk; [lia|]. apply K_opsn. eapply K_weaken; [|exact Hc].
+    unfold B_listtree, c_ls, c_isdir, c_exists. destruct (is_dir c); lia.
 Qed.
 
 Lemma listtree_entry_gap : forall t, (max_gap (listtree_entry t) <= B_listtree)%nat.
 Proof.
-  intros. unfold max_gap, listtree_entry.
-  change (max_gap_aux 0 (Chk :: listtree_tr t)) with (Nat.max 0 (max_gap_aux 0 (listtree_tr t))).
-  destruct (listtree_keeps t 0%nat); lia.
+  intros. unfold listtree_entry. eapply (K_gap 0 _ B_listtree). apply K_chk; [lia|]. eapply K_weaken; [|apply listtree_K]. lia.
+Qed.
+
+(* ---- removal and cleaning ---- *)
+Lemma remove_tr_eq t : remove_tr t =
+  opsn (1 + c_exists t + c_isdir t + c_isempty t) ++
+  match t with
+  | D (c0 :: cs0) => Chk :: opsn (c_exists t + c_isempty t + c_ls) ++ flat_map (fun c => Chk :: remove_tr c) (c0 :: cs0)
+  | _ => []
+  end ++ opsn (c_isempty_emptied t) ++ [Chk; Op].
+Proof. destruct t; reflexivity. Qed.
+
+Lemma remove_K : forall t, K 0 B_remove 1 (remove_tr t).
+Proof.
+  induction t as [n|cs IH] using tree_ind'.
+  - rewrite remove_tr_eq. ksolve.
+  - rewrite remove_tr_eq. destruct cs as [|c0 cs0]; [ksolve|].
+    apply K_opsn. apply K_chk; [cbn; unfold B_remove; lia|].
+    change ((opsn (c_exists (D (c0 :: cs0)) + c_isempty (D (c0 :: cs0)) + c_ls) ++ flat_map (fun c => Chk :: remove_tr c) (c0 :: cs0)) ++
+            opsn (c_isempty_emptied (D (c0 :: cs0))) ++ [Chk; Op])
+      with ((opsn 30 ++ flat_map (fun c => Chk :: remove_tr c) (c0 :: cs0)) ++ opsn 14 ++ [Chk; Op]).
+    eapply (K_app 0 B_remove 1).
+    + apply K_opsn. eapply K_weaken; [|apply (K_loop_ne 30 B_remove 1)]; [cbn; lia|lia|unfold B_remove; lia|].
+      eapply Forall_impl; [|exact IH]. intros c Hc. apply K_chk; [unfold B_remove; lia|exact Hc].
+    + ksolve.
+Qed.
+
+Lemma remove_gap : forall t, (max_gap (remove_tr t) <= B_remove)%nat.
+Proof. intros. eapply K_gap. apply remove_K. Qed.
+
+Lemma clean_entry_gap : forall t, (max_gap (clean_entry t) <= B_remove)%nat.
+Proof.
+  intros t. eapply (K_gap 0 _ 30). destruct t as [n|[|c0 cs0]]; unfold clean_entry; [ksolve|ksolve|].
+  apply K_chk; [unfold B_remove; lia|].
+  change (opsn (c_exists (D (c0 :: cs0)) + c_isempty (D (c0 :: cs0)) + c_ls)) with (opsn 30).
+  apply K_opsn. apply (K_loop 30 B_remove 1); [lia|unfold B_remove; lia|].
+  apply Forall_forall. intros c _. apply K_chk; [unfold B_remove; lia|apply remove_K].
+Qed.
+
+(* ---- copy ---- *)
+Lemma copyfile_K : forall n e, (e <= 30)%nat -> K e B_copy 5 (copyfile_tr n).
+Proof.
+  intros n e He. unfold copyfile_tr. apply K_chk; [unfold B_copy; lia|]. apply K_op. apply K_op.
+  apply K_chk; [unfold B_copy; lia|]. apply K_chk; [unfold B_copy; lia|].
+  eapply (K_app 0 B_copy 1).
+  - assert (L : K 1 B_copy 1 (flat_map (fun _ : unit => [ChkD 2; Op; ChkD 2; Op]) (repeat tt n))).
+    { clear. induction n as [|n IH]; simpl; [apply K_nil; unfold B_copy; lia|].
+      apply K_chk; [unfold B_copy; lia|]. apply K_op. apply K_chk; [unfold B_copy; lia|]. apply K_op. exact IH. }
+    eapply K_weaken; [|exact L]. lia.
+  - apply K_chk; [unfold B_copy; lia|]. apply K_op. change (opsn 4) with (opsn 4 ++ []). apply K_opsn. apply K_nil; unfold B_copy; lia.
+Qed.
+
+Lemma copy_child_eq t : copy_child_tr t =
+  Chk :: opsn (c_exists t + c_isdir t + 5 + 6) ++
+  match t with
+  | F n => Op :: copyfile_tr n
+  | D cs => Chk :: opsn (c_mkdir_missing + c_isempty t) ++
+            match cs with [] => [] | _ => opsn c_ls ++ flat_map copy_child_tr cs end
+  end.
+Proof. destruct t; reflexivity. Qed.
+
+Lemma copy_child_K : forall t, K 30 B_copy 16 (copy_child_tr t).
+Proof.
+  induction t as [n|cs IH] using tree_ind'.
+  - rewrite copy_child_eq. apply K_chk; [unfold B_copy; lia|]. apply K_opsn. apply K_op.
+    eapply K_weaken; [|apply (copyfile_K n 15)]; cbn; lia.
+  - rewrite copy_child_eq. apply K_chk; [unfold B_copy; lia|]. apply K_opsn. apply K_chk; [cbn; unfold B_copy; lia|].
+    destruct cs as [|c0 cs0].
+    + apply K_opsn. apply K_nil; cbn; unfold B_copy; lia.
+    + apply K_opsn. apply K_opsn.
+      eapply K_weaken; [|apply (K_loop_ne 30 B_copy 16)]; [cbn; lia|lia|unfold B_copy; lia|exact IH].
+Qed.
+
+Lemma copy_entry_gap : forall t, (max_gap (copy_entry t) <= B_copy)%nat.
+Proof.
+  intros t. eapply (K_gap 0 _ 30). destruct t as [n|cs]; unfold copy_entry.
+  - apply K_chk; [unfold B_copy; lia|]. apply K_chk; [unfold B_copy; lia|]. apply K_nil; unfold B_copy; lia.
+  - apply K_chk; [unfold B_copy; lia|]. apply K_chk; [unfold B_copy; lia|]. apply K_opsn.
+    apply K_chk; [cbn; unfold B_copy; lia|]. apply K_opsn.
+    destruct cs as [|c0 cs0]; [apply K_nil; cbn; unfold B_copy; lia|].
+    apply K_opsn. eapply K_weaken; [|apply (K_loop 30 B_copy 16)]; [cbn; lia|lia|unfold B_copy; lia|].
+    apply Forall_forall. intros c _. apply copy_child_K.
+Qed.
+
+(* ---- move (Rename refused) ---- *)
+Lemma move_tr_eq pc t : move_tr pc t =
+  Chk :: opsn (pc + 1 + c_isdir t) ++
+  match t with
+  | F n => Chk :: Chk :: opsn (c_exists t + c_isdir t + 1 + c_mkdir_existing + 1) ++ copyfile_tr n ++ [Op]
+  | D cs => Chk :: opsn (c_mkdir_missing + c_isempty t) ++
+            match cs with [] => [] | _ => opsn c_ls ++ flat_map (move_tr c_mkdir_existing) cs end ++
+            remove_tr (D [])
+  end.
+Proof. destruct t; reflexivity. Qed.
+
+Lemma move_K : forall t pc, (pc <= 5)%nat -> K 30 B_move 6 (move_tr pc t).
+Proof.
+  induction t as [n|cs IH] using tree_ind'; intros pc Hpc.
+  - rewrite move_tr_eq. apply K_chk; [unfold B_move; lia|]. apply K_opsn.
+    apply K_chk; [cbn; unfold B_move; lia|]. apply K_chk; [unfold B_move; lia|]. apply K_opsn.
+    eapply (K_app _ B_move 5).
+    + eapply K_weaken; [|apply (copyfile_K n 10)]; [cbn; unfold B_move, B_copy; lia|lia].
+    + apply K_op. apply K_nil; unfold B_move; lia.
+  - rewrite move_tr_eq. apply K_chk; [unfold B_move; lia|]. apply K_opsn.
+    apply K_chk; [cbn; unfold B_move; lia|].
+    assert (R : K 16 B_move 6 (remove_tr (D []))).
+    { rewrite remove_tr_eq. ksolve. }
+    destruct cs as [|c0 cs0].
+    + apply K_opsn. simpl app. eapply K_weaken; [|exact R]. cbn. lia.
+    + apply K_opsn. rewrite <- app_assoc. apply K_opsn.
+      eapply (K_app _ B_move 6).
+      * eapply K_weaken; [|apply (K_loop_ne 30 B_move 6)]; [cbn; lia|lia|unfold B_move; lia|].
+        eapply Forall_impl; [|exact IH]. intros c Hc. apply Hc. unfold c_mkdir_existing. lia.
+      * eapply K_weaken; [|exact R]. lia.
+Qed.
+
+Lemma move_entry_gap : forall t, (max_gap (move_entry t) <= B_move)%nat.
+Proof.
+  intros t. unfold move_entry. eapply (K_gap 0 _ 6). apply K_chk; [unfold B_move; lia|]. apply K_opsn.
+  eapply K_weaken; [|apply (move_K t c_mkdir_missing)]; [|unfold c_mkdir_missing; lia].
+  unfold c_exists, c_isdir, c_exists. destruct (is_dir t); lia.
+Qed.
+
+Lemma ep_gap : forall e t, (max_gap (ep_trace e t) <= ep_bound e)%nat.
+Proof.
+  intros [cb| | | | | |] t; simpl;
+  [apply walk_entry_gap | apply chmod_entry_gap | apply listtree_entry_gap | apply remove_gap
+  | apply clean_entry_gap | apply copy_entry_gap | apply move_entry_gap].
 Qed.
 
 (* ---- garbage collection: the fan-out is not bounded ---- *)
-Lemma gc_cons_F l : gc_after_cancel_all_started (F :: l) = (3 + gc_after_cancel_all_started l)%nat.
+Lemma gc_cons_F l : gc_after_cancel_all_started (F 1 :: l) = (3 + gc_after_cancel_all_started l)%nat.
 Proof. reflexivity. Qed.
-Lemma gc_flat : forall n, gc_after_cancel_all_started (repeat F n) = (3 * n)%nat.
-Proof. induction n as [|n IH]; [reflexivity|]. change (repeat F (S n)) with (F :: repeat F n). rewrite gc_cons_F, IH. lia. Qed.
+Lemma gc_flat : forall n, gc_after_cancel_all_started (repeat (F 1) n) = (3 * n)%nat.
+Proof. induction n as [|n IH]; [reflexivity|]. change (repeat (F 1) (S n)) with (F 1 :: repeat (F 1) n). rewrite gc_cons_F, IH. lia. Qed.
 
 Lemma gc_unbounded : forall B, exists cs, (gc_after_cancel_all_started cs > B)%nat.
-Proof. intros B. exists (repeat F (S B)). rewrite gc_flat. lia. Qed.
+Proof. intros B. exists (repeat (F 1) (S B)). rewrite gc_flat. lia. Qed.
